@@ -21,6 +21,13 @@
 //!                     output other than releases until new input; everything up, nothing scrolling
 //!                     or moving at the idle point; from the idle point on identical (tick-relative)
 //!                     to a fresh `Kanata::new` of the new file on the same continuation.
+//!
+//! What a reload must replace outside the layout (the process-global zippychord state, the sequence
+//! table, the virtual-key name table, the option fields copied in `do_live_reload`) is varied
+//! independently between the old configuration and every new file, and the continuation contains
+//! directed pieces (chords pressed together, leader + sequence, virtual keys by name, dynamic-macro
+//! record / replay, staggered accelerated mouse keys) so that a table or option that survives the
+//! reload shows up in the comparison with the fresh instance.
 
 use super::c07::dcommon::{drain_into, kind_class};
 use crate::core::rng::Rng;
@@ -328,10 +335,30 @@ struct Meta {
     chords: Vec<Vec<usize>>,
     /// key sequences of the case, as slot lists
     seqs: Vec<Vec<usize>>,
+    /// per sequence: defined as (lsft k1 k2 ..) and typed with the lsft key held
+    /// (what sequence-backtrack-modcancel is about)
+    seq_mod: Vec<bool>,
     sldr: Option<usize>,
+    /// slot of a plain lsft key
+    lsft: Option<usize>,
     /// (dynamic-macro-record slot, dynamic-macro-play slot)
     dm: Option<(usize, usize)>,
     mouse: Vec<usize>,
+    /// two accelerated mouse-movement keys on different axes
+    accel: Option<(usize, usize)>,
+}
+
+fn set_opt(s: &mut CfgSpec, name: &str, val: &str) {
+    s.opts.retain(|o| o.0 != name);
+    s.opts.push((name.to_string(), val.to_string()));
+}
+
+fn seq_text(keys: Vec<String>, with_lsft: bool) -> String {
+    if with_lsft {
+        format!("lsft {}", keys.join(" "))
+    } else {
+        keys.join(" ")
+    }
 }
 
 #[derive(Clone, Copy, Debug, Default)]
@@ -341,6 +368,7 @@ struct Feat {
     zippy: bool,
     seq: bool,
     dm: bool,
+    mouse: bool,
 }
 
 fn rand_word(rng: &mut Rng) -> String {
@@ -474,6 +502,22 @@ fn decorate_new(rng: &mut Rng, s: &mut CfgSpec, letters: &[&str], f: Feat, dict_
             s.acts0[slot] = sldr_action(rng);
             m.sldr = Some(slot);
         }
+        if rng.chance(1, 2) {
+            if let Some(slot) = free.pop() {
+                s.acts0[slot] = "lsft".into();
+                m.lsft = Some(slot);
+            }
+        }
+        if rng.chance(1, 3) {
+            // the option whose defaults for time-out and input mode are the Kanata-level fields
+            set_opt(s, "sequence-always-on", "yes");
+        }
+    }
+    if f.mouse && free.len() >= 2 {
+        let (a, b) = (free.pop().unwrap_or(0), free.pop().unwrap_or(1));
+        s.acts0[a] = format!("(movemouse-accel-{} 10 400 1 9)", rng.pick(&["up", "down"]));
+        s.acts0[b] = format!("(movemouse-accel-{} 10 400 1 9)", rng.pick(&["left", "right"]));
+        m.accel = Some((a, b));
     }
     if f.dm && free.len() >= 2 {
         let (r, p) = (free.pop().unwrap_or(0), free.pop().unwrap_or(1));
@@ -505,13 +549,14 @@ fn decorate_new(rng: &mut Rng, s: &mut CfgSpec, letters: &[&str], f: Feat, dict_
             rng.shuffle(&mut rest);
             q.extend(rest.into_iter().take(1 + rng.usize(2)));
             m.seqs.push(q);
+            m.seq_mod.push(m.lsft.is_some() && rng.coin());
         }
     }
     let letter = |s: &CfgSpec, slot: usize| s.acts0[slot].clone();
     if f.seq {
-        for q in &m.seqs {
+        for (q, md) in m.seqs.iter().zip(&m.seq_mod) {
             let v = rng.pick(&s.vkeys).0.clone();
-            s.seqs.push((v, q.iter().map(|x| letter(s, *x)).collect::<Vec<_>>().join(" ")));
+            s.seqs.push((v, seq_text(q.iter().map(|x| letter(s, *x)).collect(), *md)));
         }
     }
     if f.zippy {
@@ -530,11 +575,14 @@ fn decorate_old(rng: &mut Rng, old: &mut CfgSpec, tgt: &CfgSpec, tm: &Meta, f: F
         // slots 0 and 1 belong to the pre-state scenario
         let slot = 2 + rng.usize(ACT_KEYS.len() - 2);
         old.acts0[slot] = sldr_action(rng);
-        for q in &tm.seqs {
+        for (q, md) in tm.seqs.iter().zip(&tm.seq_mod) {
             if rng.chance(3, 4) {
                 let v = rng.pick(&old.vkeys).0.clone();
-                old.seqs.push((v, q.iter().map(|x| tgt.acts0[*x].clone()).collect::<Vec<_>>().join(" ")));
+                old.seqs.push((v, seq_text(q.iter().map(|x| tgt.acts0[*x].clone()).collect(), *md)));
             }
+        }
+        if rng.chance(1, 3) {
+            set_opt(old, "sequence-always-on", "yes");
         }
         if old.seqs.is_empty() {
             let own = plain_letters(old, OLD_LETTERS);
@@ -842,11 +890,11 @@ fn make_plan(ctx: &Ctx, idx: u64) -> Plan {
     let pool = zmode != "none" || smode != "none";
     let mut metas = vec![];
     for (i, sp) in specs.iter_mut().enumerate() {
-        let f = Feat { pool, zippy: matches!(zmode, "new-only" | "both" | "both-same-dict-file"), seq: matches!(smode, "new-only" | "both"), dm: rng.chance(1, 4) };
+        let f = Feat { pool, zippy: matches!(zmode, "new-only" | "both" | "both-same-dict-file"), seq: matches!(smode, "new-only" | "both"), dm: rng.chance(1, 4), mouse: rng.chance(1, 5) };
         let dict_file = if zmode == "both-same-dict-file" && i == 0 { "zip-old.txt".to_string() } else { format!("zip-{i}.txt") };
         metas.push(decorate_new(&mut rng, sp, NEW_LETTERS, f, dict_file));
     }
-    let fo = Feat { pool, zippy: matches!(zmode, "old-only" | "both" | "both-same-dict-file"), seq: matches!(smode, "old-only" | "both"), dm: false };
+    let fo = Feat { pool, zippy: matches!(zmode, "old-only" | "both" | "both-same-dict-file"), seq: matches!(smode, "old-only" | "both"), dm: false, mouse: false };
     decorate_old(&mut rng, &mut old, &specs[target], &metas[target], fo);
     let mut contents = vec![Content::Valid; nfiles];
     if !success {
@@ -881,6 +929,9 @@ struct ContInfo {
     chord_bursts: Vec<(Vec<usize>, bool)>,
     other_bursts: u64,
     seq_probes: u64,
+    /// ... of which typed with lsft held
+    seq_mod_probes: u64,
+    accel_holds: u64,
     dm_probes: u64,
     fk_ops: u64,
     mouse_holds: u64,
@@ -920,6 +971,9 @@ fn build_cont(rng: &mut Rng, m: &Meta) -> (Vec<Ev>, ContInfo) {
         }
         if !m.mouse.is_empty() {
             kinds.push("mouse");
+        }
+        if m.accel.is_some() {
+            kinds.extend(["accel", "accel"]);
         }
         let kind = if si == 0 && !m.chords.is_empty() && rng.chance(1, 2) { "chord" } else { *rng.pick(&kinds) };
         match kind {
@@ -973,17 +1027,41 @@ fn build_cont(rng: &mut Rng, m: &Meta) -> (Vec<Ev>, ContInfo) {
                 if let Some(l) = m.sldr {
                     tap(&mut c, l, 1 + rng.usize(25) as u32);
                     wait(&mut c, *rng.pick(&[1u32, 20]));
-                    let q = rng.pick(&m.seqs).clone();
-                    let cut = if rng.chance(1, 5) { 1 } else { q.len() };
+                    let qi = rng.usize(m.seqs.len());
+                    let q = m.seqs[qi].clone();
+                    let held_mod = if m.seq_mod.get(qi) == Some(&true) || rng.chance(1, 8) { m.lsft } else { None };
+                    if let Some(ms) = held_mod {
+                        c.push(Ev::P(keys[ms]));
+                        wait(&mut c, *rng.pick(&[1u32, 10]));
+                    }
+                    let cut = if rng.chance(1, 4) { 1 } else { q.len() };
                     for s in &q[..cut] {
                         tap(&mut c, *s, *rng.pick(&[3u32, 15]));
                         wait(&mut c, *rng.pick(&[1u32, 20, 200]));
+                    }
+                    if let Some(ms) = held_mod {
+                        c.push(Ev::R(keys[ms]));
+                        info.seq_mod_probes += 1;
                     }
                     if rng.chance(1, 4) {
                         tap(&mut c, rng.usize(ACT_KEYS.len()), 5);
                     }
                     wait(&mut c, *rng.pick(&[0u32, 300, 1200, 2200]));
                     info.seq_probes += 1;
+                }
+            }
+            "accel" => {
+                if let Some((a, b)) = m.accel {
+                    let (a, b) = if rng.coin() { (a, b) } else { (b, a) };
+                    c.push(Ev::P(keys[a]));
+                    wait(&mut c, *rng.pick(&[60u32, 150, 260]));
+                    c.push(Ev::P(keys[b]));
+                    wait(&mut c, *rng.pick(&[40u32, 120]));
+                    c.push(Ev::R(keys[a]));
+                    wait(&mut c, *rng.pick(&[0u32, 30]));
+                    c.push(Ev::R(keys[b]));
+                    wait(&mut c, *rng.pick(&[10u32, 200]));
+                    info.accel_holds += 1;
                 }
             }
             "dm" => {
@@ -1595,6 +1673,8 @@ fn judge_plan(p: &Plan, paths: &Paths, out: &mut CaseOut, desc: &Value, verbose:
             out.count("continuation:chords_pressed_together", p.cinfo.chord_bursts.len() as u64);
             out.count("continuation:other_keys_pressed_together", p.cinfo.other_bursts);
             out.count("continuation:leader_plus_sequence", p.cinfo.seq_probes);
+            out.count("continuation:sequence_typed_with_lsft_held", p.cinfo.seq_mod_probes);
+            out.count("continuation:two_accelerated_movement_keys_staggered", p.cinfo.accel_holds);
             out.count("continuation:dynamic_macro_record_and_replay", p.cinfo.dm_probes);
             out.count("continuation:virtual_key_operated_by_name", p.cinfo.fk_ops);
             out.count("continuation:mouse_movement_keys_held", p.cinfo.mouse_holds);
@@ -1654,7 +1734,7 @@ impl Check for C15Check {
         out
     }
     fn rule(&self) -> String {
-        "case = (pre-state scenario, reload request kind, outcome) taken systematically from the index: 16 scenarios (idle, key held, pending tap-hold, active one-shot, running macro, held mouse button, held mwheel, held movemouse, caps-word, pending hold-for-duration, layer held, layer switched, unmod key held > 1 s (the 1000-idle-tick fallback), plain key held > 1 s, two keys held, random typing) x 5 request kinds (lrld, lrld-next, lrld-prev, lrld-num, lrld-file) x {valid new file, broken new file} x 5 fault kinds (syntax error, semantic error, missing file, directory, non-UTF-8), over 1-3 real files; every fifth case taps a second request back-to-back. Old and new configurations are random over plain keys, tap-hold, one-shot, macro, mouse button / wheel / movement, caps-word, hold-for-duration, layers, chords, multi, tap-dance, unmod, fork, overrides. After the request(s) the held keys are released with random gaps, the run settles, then a random continuation of 8-32 events is typed. Failed reloads are compared, output by output and tick by tick, with a twin run whose reload keys are inert; successful ones with a fresh Kanata::new of the new file from the idle point on, plus the deferral / notification / first-layer / nothing-pressed oracles. Non-trivial = case in which the request was made on an accepted old configuration; distinct = (outcome, scenario, request kinds, fault kind, number of files, number of reloads applied).".into()
+        "case = (pre-state scenario, reload request kind, outcome) taken systematically from the index: 16 scenarios (idle, key held, pending tap-hold, active one-shot, running macro, held mouse button, held mwheel, held movemouse, caps-word, pending hold-for-duration, layer held, layer switched, unmod key held > 1 s (the 1000-idle-tick fallback), plain key held > 1 s, two keys held, random typing) x 5 request kinds (lrld, lrld-next, lrld-prev, lrld-num, lrld-file) x {valid new file, broken new file} x 6 fault kinds (syntax error, semantic error, missing file, directory, non-UTF-8, valid text naming a malformed zippychord dictionary), over 1-3 real files; every fifth case taps a second request back-to-back. Old and new configurations are random over plain keys, tap-hold, one-shot, macro, mouse button / wheel / movement (plain and accelerated), caps-word, hold-for-duration, layers, chords, multi, tap-dance, unmod, fork, switch with key-timing, overrides. Everything that a reload has to replace OUTSIDE the layout is varied independently between the old configuration and every new file: zippychord (old file with defzippy -> new without, new with another dictionary, new naming the same dictionary file whose content was edited, old without -> new with; dictionaries are real files next to the configuration, contain the chords of the case expressed in the letters the reloaded file types, follow-up chords and own chords; deadline / idle-reactivate-time / smart-space options vary), defseq tables with a leader key (sldr or (sequence t mode)) in old-only / new-only / both (a third of them with sequence-always-on, whose time-out and input mode are the Kanata-level fields), the defvirtualkeys list (2-4 keys, random order = random index behind each name, random actions), dynamic-macro record / play keys (new files only) and the defcfg options sequence-timeout, sequence-input-mode, sequence-backtrack-modcancel, sequence-always-on, movemouse-smooth-diagonals, movemouse-inherit-accel-state, dynamic-macro-max-presses, dynamic-macro-replay-delay-behaviour, override-release-on-activation, concurrent-tap-hold, rapid-event-delay. After the request(s) the held keys are released with random gaps, the run settles, then a continuation of 2-5 pieces is typed: random typing, the chords of the case pressed together (half of the cases start with one, so zippychord is surely enabled), leader + key sequence (some defined as (lsft k1 k2) and typed with lsft held, some broken off), two accelerated movement keys pressed one after the other, record / stop / replay of a dynamic macro, virtual keys pressed / tapped / toggled by name as the TCP server does, movement keys held together, random keys pressed together. Failed reloads are compared, output by output and tick by tick, with a twin run whose reload keys are inert (the dictionary file on disk changes in both); successful ones with a fresh Kanata::new of the new file from the idle point on, plus the deferral / notification / first-layer / nothing-pressed oracles. Non-trivial = case in which the request was made on an accepted old configuration; distinct = (outcome, scenario, request kinds, fault kind, number of files, number of reloads applied).".into()
     }
     fn assumptions(&self) -> Vec<String> {
         vec![
@@ -1663,7 +1743,10 @@ impl Check for C15Check {
             "the idle point after a reload is: request decided, is_idle, no pending on-idle action, OS model all-up, 40 silent ticks; the continuation contains no further reload requests".into(),
             "lrld-num is only generated with a number that names an existing file (the guide does not say what an out-of-range number does)".into(),
             "recorded dynamic macros and clipboard slots are kept across reloads on purpose and are not exercised".into(),
-            "device-related options, include files and zippychord dictionaries are not varied".into(),
+            "what the continuation reaches of a feature that differs between old and new file is reported by the evidence counters (zippy_pair:*, old_chord_typed_after_reload_*, sequence_typed_after_reload_*, virtual_key_operated_after_reload_*, reload_changes_option:*); chords, sequences and dictionaries of the old configuration are written in the letters the reloaded file types, so a table that survives the reload shows in the comparison with the fresh instance".into(),
+            "a zippychord dictionary file that does not exist is read as an empty dictionary (like a missing include), so only malformed dictionaries count as a fault".into(),
+            "dynamic-macro keys exist only in new files (nothing recorded before the reload can be replayed after it)".into(),
+            "not observable through this driver and not varied: include files, device-related options, allow-hardware-repeat and MAPPED_KEYS (read by the OS event loop, not by the state machine), linux-x11-repeat-delay-rate (runs xset), switch key-timing's effect on blocking (the driver ticks every millisecond whether or not kanata would block), log-layer-changes".into(),
         ]
     }
     fn floors(&self, _ctx: &Ctx) -> Vec<(&'static str, u64)> {
@@ -1687,6 +1770,32 @@ impl Check for C15Check {
             ("request:lrld-prev", 50),
             ("request:lrld-num", 50),
             ("request:lrld-file", 50),
+            // state outside the layout differs between the old configuration and the reloaded file
+            // and the continuation reaches it
+            ("fault:broken-zippy-dictionary", 20),
+            ("failed_reload_cases_with_defzippy_in_old_config", 150),
+            ("zippy_pair:defzippy->none", 60),
+            ("zippy_pair:defzippy->other-dictionary", 50),
+            ("zippy_pair:defzippy->same-dictionary-file-edited", 10),
+            ("zippy_pair:none->defzippy", 40),
+            ("old_chord_typed_after_reload_into_file_without_defzippy", 40),
+            ("old_chord_typed_after_reload_into_file_with_other_defzippy", 40),
+            ("new_chord_typed_after_reload_from_file_without_defzippy", 30),
+            ("continuations_with_zippy_expansion_in_new_file", 50),
+            ("sequence_typed_after_reload_that_changed_the_sequence_table", 40),
+            ("virtual_key_operated_after_reload_that_changed_the_virtual_keys", 60),
+            ("continuation:dynamic_macro_record_and_replay", 40),
+            ("continuation:mouse_movement_keys_held", 15),
+            ("continuation:sequence_typed_with_lsft_held", 15),
+            ("continuation:two_accelerated_movement_keys_staggered", 20),
+            ("reload_changes_option:sequence-timeout", 40),
+            ("reload_changes_option:sequence-input-mode", 40),
+            ("reload_changes_option:sequence-backtrack-modcancel", 40),
+            ("reload_changes_option:sequence-always-on", 40),
+            ("reload_changes_option:movemouse-smooth-diagonals", 40),
+            ("reload_changes_option:movemouse-inherit-accel-state", 40),
+            ("reload_changes_option:dynamic-macro-max-presses", 40),
+            ("reload_changes_option:dynamic-macro-replay-delay-behaviour", 40),
         ]
     }
     fn watchdog_s(&self, _ctx: &Ctx) -> u64 {
